@@ -39,6 +39,7 @@ type Driver struct {
 	PkgPath string
 	Prefix  string // obligation id prefix
 	AssumeFPRange bool
+	pending       string // class of the panic most recently raised
 }
 
 const rtPath = "github.com/goplus/llgo/runtime/internal/runtime"
@@ -56,7 +57,6 @@ func New(m *core.Machine, prog, rtp *gofe.Program, mods []*llfe.Module, pkgPath 
 	}
 	if rtp != nil {
 		d.RT = gofe.NewExec(rtp, m)
-		d.RT.Cfg.SkipUserInits = true
 	}
 	d.L = llfe.NewExec(m, mods)
 	d.L.Bridge = d
@@ -79,11 +79,15 @@ func (d *Driver) Call(x *llfe.Exec, name string, fn *llfe.Func, args []Value, re
 		return nil, false
 	}
 	if short == "Panic" {
-		panic(&llfe.GoPanic{Class: "", Val: args[0], Msg: "user panic"})
+		d.raise("", args[0], "user panic")
 	}
 	// LLVM passes the same value shapes front end G uses; only the nesting of
 	// multiple results differs (tuple), which is identical as well.
 	res, pan := d.RT.CallGo(f, args)
+	if pan != nil && pan.Class == "exit" {
+		// the runtime terminated the program: an unrecovered panic escaped
+		panic(&llfe.GoPanic{Class: d.pending, Val: pan.Val, Msg: "unrecovered panic terminated the program in " + short})
+	}
 	if pan != nil {
 		cls, ok := rtClass[short]
 		if !ok {
@@ -97,9 +101,37 @@ func (d *Driver) Call(x *llfe.Exec, name string, fn *llfe.Func, args []Value, re
 		if pan.Class != "" && pan.Class != "user" {
 			cls = pan.Class
 		}
-		panic(&llfe.GoPanic{Class: cls, Val: pan.Val, Msg: short + ": " + pan.Msg})
+		d.raise(cls, pan.Val, short+": "+pan.Msg)
 	}
 	return res, true
+}
+
+// raise performs what a panic statement does in llgo-compiled code: the real
+// runtime.Panic runs (front end G): it records the value and either longjmps
+// to the innermost deferring frame (a host LongJmp caught by that IR frame) or,
+// with no such frame, terminates the program — reported as an escaped panic of
+// the given class.
+func (d *Driver) raise(cls string, val Value, msg string) {
+	if _, isAgg := val.(Agg); !isAgg {
+		p := val.(*smt.Term)
+		val = Agg{p, p}
+	}
+	d.pending = cls
+	pf := d.RTP.Main.Func("Panic")
+	if pf == nil {
+		panic(&llfe.GoPanic{Class: cls, Val: val, Msg: msg})
+	}
+	_, pan := d.RT.CallGo(pf, []Value{val})
+	if pan != nil && pan.Class != "exit" {
+		panic(&llfe.GoPanic{Class: "rt-internal:" + pan.Class, Val: val, Msg: "runtime.Panic itself panicked: " + pan.Msg})
+	}
+	panic(&llfe.GoPanic{Class: cls, Val: val, Msg: msg})
+}
+
+// NilFault implements llfe.Bridge: a fault in the nil region becomes a Go panic
+// through llgo's signal handler.
+func (d *Driver) NilFault() {
+	d.raise("nilptr", d.M.Mem.Alloc(16, "nilfault").Ptr(), "nil dereference (fault in nil region)")
 }
 
 func classOfMsg(s string) string {
